@@ -12,14 +12,16 @@ COQ_TARGETS = ["Props/C09.vo", "Extract/ExtractC09.vo"]   # Props/C09 pulls in P
 
 # Which code the tree under test is.  Mirrored by current_fx / current_fs in coq/Model/DefStore.v
 # (translate() fails closed when they differ).
-# To switch to the repaired expand/shrink code (after applying fix-F1.diff to the tree under test):
-#   1. FIXED = True below, 2. "Definition current_fx : bool := true." in coq/Model/DefStore.v,
-#   3. move C09-F1 and C09-F3 from "findings" to "fixed" in known_findings.json.
-# In FIXED mode the extracted model runs the repaired code, any expand-twice / expand-after-shrink failure is a
+# /repo contains all three repairs, so all switches are True = "the code as it is":
+#   FIXED     fix commit 60986da (keep HedTag._expanded in step with expand_defs and shrink_defs; former C09-F1/F3)
+#   FIXED_F2  fix commit cbb8087 (sorted Def-expand comparison; former C09-F2)
+#   FIXED_F4  fix commit 2492808 (HedTag.__eq__ = case-folded short_tag equality; former C09-F4)
+# With FIXED the extracted model runs the code as it is, any expand-twice / expand-after-shrink failure is a
 # VIOLATION, and every step is additionally compared with the spec-level run_t of theorem C09_interleaving.
-FIXED = True        # C09-F1 / C09-F3 repair (fix-F1.diff): _expanded kept in step by expand_defs / shrink_defs
-FIXED_F2 = True     # C09-F2 repaired by cbb8087: _validate_def_contents compares sorted() groups
-FIXED_F4 = True     # former C09-F4 repaired by 2492808: HedTag.__eq__ = case-folded short_tag equality
+# (False = the behaviour before the commit; only useful to re-examine an old tree.)
+FIXED = True        # since 60986da: _expanded kept in step by expand_defs / shrink_defs
+FIXED_F2 = True     # since cbb8087: _validate_def_contents compares sorted() groups
+FIXED_F4 = True     # since 2492808: HedTag.__eq__ = case-folded short_tag equality
 
 TRUSTED = [
     "Model/Defs.v (spec layer), Model/DefStore.v (heap with object identity) and Model/DefObj.v (ownership trees) "
@@ -48,6 +50,15 @@ ASSUMPTIONS = [
     "the DataFrame branch of df_util.shrink_defs (a no-op under pandas 3 copy-on-write) are not modelled",
     "interleaving / refinement theorems assume wf_dict (no Def/Def-expand/Definition inside stored contents, a "
     "placeholder tag present iff takes_value), which is proved to be preserved by check_for_definitions",
+    "C09_interleaving is a theorem about the ownership-tree model (DefObj.v) in the mode of the code as it is; the "
+    "pointer-level heap model (DefStore.v) is proved equal to it for copy only and kernel-checked on 190 annotations x "
+    "op sequences of length <= 4 for expand/shrink (C09_layers_agree_family); both models are compared with the "
+    "implementation after every op",
+    "C09_shrink_expand_t needs an annotation without written Def-expand tags; C09_expansion_declarative needs at most "
+    "one placeholder tag in the stored content (true of accepted value-taking definitions as parsed; hypothesis, not "
+    "derived from acceptance); C09_check_for_definitions_fold holds by construction of the model",
+    "theorems with fx = false / fs = false are records of defects repaired by 60986da / cbb8087, not statements "
+    "about /repo",
 ]
 
 _schemas = {}
